@@ -146,11 +146,16 @@ def canon_default(p):
     return ("value", type(v).__name__, v)
 
 
+def _kset(kind):
+    return {kind} if isinstance(kind, str) else set(kind)
+
+
 def diff_param(path, want, got, out, kind, opts=None):
+    ks = _kset(kind)
     wt, gt = want.get("typ"), got.get("typ")
-    if kind == "argparse" and wt is None and "default" not in want:
+    if "argparse" in ks and wt is None and "default" not in want:
         wt = "str"
-    if kind == "argparse" and path.startswith("params") and wt is not None and (wt.startswith(("Union[", "Tuple[")) or "." in wt):
+    if "argparse" in ks and path.startswith("params") and wt is not None and (wt.startswith(("Union[", "Tuple[")) or "." in wt):
         # N_argparse: inexpressible types fall back to str (or to the scalar type of the explicit default)
         ok_t = {"str", "Optional[str]"}
         if "default" in want and want["default"] is not None:
@@ -161,14 +166,14 @@ def diff_param(path, want, got, out, kind, opts=None):
     wd, gd = canon_doc(want.get("doc")), canon_doc(got.get("doc"))
     if wd != gd:
         out.append({"path": path + ".doc", "want": wd, "got": gd})
-    if kind in STYLES and opts is not None and not opts.get("emit_default_doc", True):
+    if (ks & set(STYLES)) and opts is not None and not opts.get("emit_default_doc", True):
         return  # without default text the defaults are by construction not in a docstring (C01's quantifier)
     wv, gv = canon_default(want), canon_default(got)
-    if wv[0] == "absent" and kind in ("class",):
+    if wv[0] == "absent" and "class" in ks:
         # N_class (the property's own documented normalisation): no default -> zero value of the type, or None
         z = {"int": 0, "float": 0.0, "str": "", "bool": False, "complex": 0j}.get(want.get("typ"), None)
         wv = ("none", None, None) if z is None else ("value", type(z).__name__, z)
-    if kind == "argparse":
+    if "argparse" in ks:
         # N_argparse: a required option without default acquires the zero value of its type; an Optional one has
         # no default, which argparse cannot tell from an explicit None
         t = want.get("typ") or "str"
@@ -197,7 +202,7 @@ def diff_ir(ir_in, ir_out, kind, opts=None):
             diff_param("params." + n, ir_in["params"][n], ir_out["params"][n], out, kind, opts)
     rin = (ir_in.get("returns") or {}).get("return_type")
     rout = (ir_out.get("returns") or {}).get("return_type")
-    if kind == "argparse" and rin is not None and "default" not in rin:
+    if "argparse" in _kset(kind) and rin is not None and "default" not in rin:
         return out  # C04 claims only "a return entry that carries a default"
     if (rin is None) != (rout is None):
         if not (rin is None and rout == {}):
@@ -205,3 +210,26 @@ def diff_ir(ir_in, ir_out, kind, opts=None):
     elif rin is not None:
         diff_param("returns", rin, rout, out, kind, opts)
     return out
+
+
+def chain(kinds, ir, opts_of):
+    """emit/parse through every kind in turn -> (final ir, None) | (None, error)"""
+    cur = ir
+    for k in kinds:
+        cur, err = roundtrip(k, _for_emit(cur), opts_of(k))
+        if err:
+            return None, "%s at hop %s" % (err, k)
+    return cur, None
+
+
+def _for_emit(ir):
+    """a parsed IR as the next emitter's input (name/type/doc present; returns None allowed)"""
+    ir = deepcopy(ir)
+    ir.setdefault("name", "f")
+    if ir.get("doc") is None:
+        ir["doc"] = ""
+    if ir.get("params") is None:
+        ir["params"] = OrderedDict()
+    ir.setdefault("returns", None)
+    ir.pop("_internal", None)
+    return ir
